@@ -1,6 +1,7 @@
 package main
 
 import (
+	"time"
 	"fmt"
 	"io"
 	"math/rand"
@@ -90,8 +91,23 @@ func implSparseOps(line string) string {
 				} else {
 					out = append(out, "s")
 				}
+			case 'D':
+				store.mu.Lock()
+				store.down = true
+				store.mu.Unlock()
+				out = append(out, "dn")
+			case 'U':
+				store.mu.Lock()
+				store.down = false
+				store.mu.Unlock()
+				out = append(out, "up")
 			case 'O':
 				h.Close()
+				opts := desync.SparseFileOptions{StateSaveFile: state}
+				if strings.HasSuffix(op, "i") { // pre-load from the saved state, state-init and state-save being the same file
+					opts.StateInitFile = state
+					opts.StateInitConcurrency = 2
+				}
 				switch op[1] {
 				case '1':
 					os.Remove(state)
@@ -102,9 +118,21 @@ func implSparseOps(line string) string {
 						os.Truncate(name, st.Size()/2)
 					}
 				}
-				sf, err = desync.NewSparseFile(name, idx, store, desync.SparseFileOptions{StateSaveFile: state})
+				sf, err = desync.NewSparseFile(name, idx, store, opts)
 				if err != nil {
 					return strings.Join(append(out, "open-error"), ",")
+				}
+				if opts.StateInitFile != "" {
+					// the pre-load runs in the background: wait until the store has been quiet for a while
+					last, quiet := store.ncalls(), 0
+					for quiet < 4 {
+						time.Sleep(500 * time.Microsecond)
+						if c := store.ncalls(); c == last {
+							quiet++
+						} else {
+							last, quiet = c, 0
+						}
+					}
 				}
 				h, err = sf.Open()
 				if err != nil {
@@ -185,7 +213,46 @@ func runC10(cfg Config) {
 			}
 		}
 		var fail []int
-		if rng.Intn(2) == 0 {
+		if it%5 == 4 && nch > 0 {
+			// histories with pre-loading restarts (state-init = state-save file) and a store that goes down and
+			// comes back; no per-call failures (the pre-load's call order is not deterministic)
+			ops = nil
+			down := false
+			for k := 0; k < 3+rng.Intn(10); k++ {
+				switch r := rng.Intn(14); {
+				case r < 6:
+					ops = append(ops, fmt.Sprintf("R%d:%d", rng.Intn(L+4), rng.Intn(int(max)*3+1)))
+				case r < 8:
+					ops = append(ops, "S")
+				case r < 9:
+					ops = append(ops, "D")
+					down = true
+				case r < 10:
+					ops = append(ops, "U")
+					down = false
+				case r < 12:
+					ops = append(ops, fmt.Sprintf("O%di", []int{0, 2, 3}[rng.Intn(3)]))
+					if !down {
+						// with the store up the background pre-load races with the state written at the end of
+						// NewSparseFile: save again once it has settled, so that the state file is defined
+						ops = append(ops, "S")
+					}
+				default:
+					ops = append(ops, fmt.Sprintf("O%d", rng.Intn(4)))
+				}
+			}
+			if it%15 == 4 {
+				// directed: populate and save; the cache file is lost; a restart re-creates it and starts to
+				// pre-load while the store is down; the process ends without another save; the next start finds
+				// a cache file of the right size and whatever state file the interrupted start left
+				ops = []string{fmt.Sprintf("R0:%d", L), "S", "D", fmt.Sprintf("O%di", []int{2, 3}[rng.Intn(2)])}
+				if rng.Intn(2) == 0 {
+					ops = append(ops, "U")
+				}
+				ops = append(ops, "O0", "U", fmt.Sprintf("R0:%d", L), fmt.Sprintf("R%d:%d", rng.Intn(L+1), rng.Intn(int(max)*2+1)))
+			}
+			nops = len(ops)
+		} else if rng.Intn(2) == 0 {
 			for k := 0; k < 1+rng.Intn(4); k++ {
 				fail = append(fail, rng.Intn(10))
 			}
